@@ -594,6 +594,52 @@ def draw_tree(draw, prof: Profile, max_depth=4, max_fan=3, max_leaves=8, max_dis
     return node(depth, force_bool=top_bool or _int(draw, 0, 5) != 0)
 
 
+def draw_cross(draw, prof: Profile):
+    """And node with >=2 children that each expand to several DNF solutions (Or of 2-3 leaves, negated And,
+    And(Or, leaf)), optionally plus plain leaves / an xor node, optionally wrapped in an Or / And / Negate --
+    exercises the cross-product in And.iter_dnf_solutions and Or.cnf_solutions built on it"""
+    leaves = [pkg_leaf(draw, prof) for _ in range(_int(draw, 3, 4))]
+
+    def lf():
+        n = _pick(draw, leaves)
+        return {"k": "not", "c": n} if _int(draw, 0, 9) == 0 else n
+
+    def multi():
+        r = _int(draw, 0, 9)
+        nt = _pick(draw, ["package", None])
+        if r < 7:
+            return {"k": "or", "neg": False, "nt": nt, "c": [lf() for _ in range(_int(draw, 2, 3))]}
+        if r < 8:
+            return {"k": "and", "neg": True, "nt": nt, "c": [lf() for _ in range(2)]}
+        inner = {"k": "or", "neg": False, "nt": nt, "c": [lf() for _ in range(2)]}
+        return {"k": "and", "neg": False, "nt": nt, "c": [inner, lf()] if _boold(draw) else [lf(), inner]}
+
+    kids = [multi() for _ in range(_pick(draw, [2, 2, 2, 3]))]
+    r = _int(draw, 0, 5)
+    if r == 0:
+        kids.insert(_int(draw, 0, len(kids)), lf())
+    elif r == 1:
+        kids.insert(_int(draw, 0, len(kids)),
+                    {"k": _pick(draw, ["one", "most"]), "neg": _negd(draw), "nt": None, "c": [lf(), lf()]})
+    root = {"k": "and", "neg": False, "nt": _pick(draw, ["package", None]), "c": kids}
+    r = _int(draw, 0, 9)
+    if r < 3:
+        root = {"k": "or", "neg": False, "nt": None, "c": [root, lf()] if _boold(draw) else [lf(), root]}
+    elif r < 4:
+        root = {"k": "and", "neg": False, "nt": None, "c": [lf(), root]}
+    elif r < 5:
+        root = {"k": _pick(draw, ["or", "and", "one", "most"]), "neg": True, "nt": None, "c": [root, lf()]}
+    return root
+
+
+def cross(prof: Profile):
+    @st.composite
+    def _s(draw):
+        return draw_cross(draw, prof)
+
+    return _s()
+
+
 def tree(prof: Profile, **kw):
     """hypothesis strategy wrapping draw_tree"""
 
